@@ -145,6 +145,36 @@ fn faults(ctx: &mut Ctx, e: &Envelope, comp: &Envelope, rng: &mut crate::rng::Rn
         expect_reject_or_same(ctx, &env_bytes(&f), e, "misdeclared-content");
         expect_reject_as_subject(ctx, &env_bytes(&f), e, "misdeclared-content");
     }
+    // near-miss declarations: the real content under a digest that differs in exactly one bit
+    {
+        let real = env_bytes(e);
+        let mut bits: Vec<usize> = (248..256).chain(0..8).collect();
+        for _ in 0..8 {
+            bits.push(rng.below(256));
+        }
+        for b in bits {
+            let mut d = gen::root_digest(e);
+            d[b / 8] ^= 1 << (b % 8);
+            let forged = Compressed::from_uncompressed_data(real.clone(), Some(Digest::from_data(d)));
+            if let Ok(f) = Envelope::try_from(forged) {
+                ctx.eval();
+                ctx.count("fault_near-miss-digest");
+                match trap::guard(|| (f.uncompress(), f.add_assertion("k", 1).uncompress_subject())) {
+                    Ok((a, s)) => {
+                        if a.is_ok() {
+                            ctx.violation("corrupt-accepted/near-miss-digest", &format!("uncompress accepted content whose digest differs from the declared one in bit {}", b), jhex(&f));
+                        }
+                        if let Ok(u) = s {
+                            if !u.subject().is_compressed() || true {
+                                ctx.violation("corrupt-subject-accepted/near-miss-digest", &format!("uncompress_subject accepted (or silently kept) a subject whose declared digest differs in bit {}", b), jhex(&f));
+                            }
+                        }
+                    }
+                    Err(p) => ctx.violation(&format!("fault-near-miss-panic/{}", p.signature()), &format!("{:?}", p), jhex(&f)),
+                }
+            }
+        }
+    }
     // content that is not an envelope
     let junk = Compressed::from_uncompressed_data(dcbor::CBOR::from("not an envelope").to_cbor_data(), Some(Digest::from_data(gen::root_digest(e))));
     if let Ok(f) = Envelope::try_from(junk) {
